@@ -222,7 +222,9 @@ def expected_top_choices(story, st, sec=None, own_used=None):
     for c in p.get("choices", []):
         if c.get("section", 0) != sec:
             continue
-        txt = _plain_text(c["text"], env)
+        # (a one-time choice whose text interpolates variables is identified by the engine through its RENDERED text; whether
+        # it counts as taken then depends on when the text was rendered — the oracle abstains for such passages)
+        txt = _plain_text(c["text"])
         if not c.get("sticky", True):
             if txt is None:
                 return None
